@@ -24,6 +24,8 @@ def run(ctx, repo):
     ctx.rule('R2', 'inverse shape: (score / A) ** (1.0 / X), Z added for distances and subtracted-from for times; same table')
     ctx.rule('R3', 'negative targets are clamped to 0 before use')
     ctx.rule('R4', 'unknown key -> None guard dominates the table subscripts')
+    ctx.rule('R5', 'GRID on score() and performance(): the forward function is exact on the 0.01 grid')
+    ctx.rule('R6', 'no history: memo transparency; the shared coefficient rows are never changed in place')
     sarms, _ = dispatch_arms(score)
     parms, pchain = dispatch_arms(perf)
     if sarms is None or parms is None:
@@ -162,3 +164,28 @@ def run(ctx, repo):
         ctx.finding('R4', '%s::performance::unknown-pair guard' % ATH, ATH, perf.lineno,
                     'performance() looks the key up without the `key not in _scoring_objects: return None` guard in front')
     ctx.floor('kind arms compared between score() and performance()', 3, 3)
+    # ---- R5: the forward function must be exact on the grid, else no inverse exists (shared with C01.R3)
+    from ..grid import FnGrid
+    from ..src import stmt_key
+    occ = {}
+    for node, status, desc in FnGrid(score).sites():
+        k = stmt_key(node)
+        occ[k] = occ.get(k, 0) + 1
+        if status == 'hazard':
+            ctx.finding('R5', '%s::score::%s#%d' % (ATH, k, occ[k]), ATH, node.lineno,
+                        '%s: the mark that performance() reports no longer reaches its target when scored (100*4.1 = 409.99999999999994)' % desc,
+                        "performance('M','LJ',221) = 4.1 but score('M','LJ',4.1) = 220")
+        else:
+            ctx.ok('R5', '%s guarded (%s)' % (k[:50], desc))
+    # ---- R6: no history: memo transparency and no in-place change of the shared coefficient rows
+    from ..memo import analyse as memo_analyse, shared_alias_mutations
+    from ..props.c19 import module_mutables
+    mm = set(module_mutables(mod)) | {'_scoring_objects'}
+    for fn in (score, perf):
+        res, memos = memo_analyse(fn, mm)
+        for rule, msg, node in res:
+            ctx.finding('R6', '%s::%s::memo %s' % (ATH, fn.name, rule), ATH, node.lineno, msg, 'the same query asked twice in one process')
+        for msg, node in shared_alias_mutations(fn, mm):
+            ctx.finding('R6', '%s::%s::shared row changed in place' % (ATH, fn.name), ATH, node.lineno, msg, 'one esaa=True call, then a plain M-800 call')
+        if not res:
+            ctx.ok('R6', '%s: %d memo(s), transparent; no shared row changed in place' % (fn.name, len(memos)))
